@@ -89,7 +89,7 @@ def forward_fns(r):
     """local async fns that send an ActorInputMessage on an actor inbox (the relay's forward function)"""
     out = []
     for b in r.f.user_bodies():
-        if not b.coroutine or b in r.actors():
+        if not b.coroutine or r.is_role(r.actors(), b):
             continue
         for (bb, t, ty, how) in send_calls(b):
             if tyname(ty) == "ActorInputMessage" and re.search(r"&(mut )?[\w:]*TargetActors$", r.fn_of(b).locals[1]["ty"]) and r.fn_of(b).argc >= 3:
@@ -492,6 +492,6 @@ def success_sets_executed(ctx):
             if not subs:
                 subs = {"Ok": Rok}
             for v, R in subs.items():
-                calls = [c for c in calls_to_role(r, a, setters, R) if is_awaited(a, c[0]) and _must_pass(a, R, c[0])]
+                calls = [c for c in calls_to_role(r, a, setters, R) if (is_awaited(a, c[0]) or ctx.f.coroutine_of(callee_base(c[1])) is None) and _must_pass(a, R, c[0])]
                 ctx.check(bool(calls), f"{lab}/{what}.{v}", [site(a, c[0]) for c in calls] or [a.loc(min(R)) if R else a.loc()],
                           f"the `{v}` outcome does not go through the notifier that records the target as executed: a requester registering afterwards is never acknowledged")
